@@ -1,5 +1,6 @@
-(* Proofs/SampleBase.v — basic facts about Model/Sample.v used by the C13 proofs. *)
-From Coq Require Import NArith ZArith List Bool Lia.
+(* Proofs/SampleBase.v — basic facts about Model/Sample.v used by the C13 proofs:
+   attr keys (what Attr.__eq__ compares), find_idx, insert_at, remove_at. *)
+From Coq Require Import NArith ZArith List Bool Lia Permutation.
 From XV Require Import Base.Str Base.Eqb Gen.SampleTables Model.Sample Model.SampleCorr.
 Import ListNotations.
 Open Scope N_scope.
@@ -7,27 +8,166 @@ Open Scope N_scope.
 Lemma ostr_eqb_eq a b : ostr_eqb a b = true <-> a = b.
 Proof. unfold ostr_eqb. apply opt_eqb_spec. apply str_eqb_eq. Qed.
 
-Lemma attr_eqb_refl a : attr_eqb a a = true.
+(* ------------------------------------------------------------------ keys *)
+Definition key (a : attr) : str * str * option str := (a_tag a, a_name a, a_ns a).
+
+Lemma attr_eqb_key a b : attr_eqb a b = true <-> key a = key b.
 Proof.
-  unfold attr_eqb. rewrite !str_eqb_refl. cbn.
-  destruct (a_ns a); cbn; [apply str_eqb_refl|reflexivity].
+  unfold attr_eqb, key. rewrite !andb_true_iff, !str_eqb_eq, ostr_eqb_eq. split.
+  - intros [[-> ->] ->]. reflexivity.
+  - intros E. inversion E. auto.
 Qed.
+
+Lemma attr_eqb_false_key a b : attr_eqb a b = false <-> key a <> key b.
+Proof.
+  split.
+  - intros H E. apply attr_eqb_key in E. congruence.
+  - intros H. destruct (attr_eqb a b) eqn:E; [|reflexivity]. apply attr_eqb_key in E. contradiction.
+Qed.
+
+Lemma attr_eqb_refl a : attr_eqb a a = true.
+Proof. apply attr_eqb_key. reflexivity. Qed.
 
 Lemma attr_eqb_sym a b : attr_eqb a b = attr_eqb b a.
 Proof.
-  unfold attr_eqb.
-  assert (S : forall x y, str_eqb x y = str_eqb y x).
-  { intros x y. destruct (str_eqb_spec x y), (str_eqb_spec y x); congruence. }
-  rewrite (S (a_tag a)), (S (a_name a)). f_equal.
-  destruct (a_ns a), (a_ns b); cbn; auto.
+  destruct (attr_eqb a b) eqn:E1, (attr_eqb b a) eqn:E2; try reflexivity.
+  - apply attr_eqb_key in E1. apply attr_eqb_false_key in E2. congruence.
+  - apply attr_eqb_key in E2. apply attr_eqb_false_key in E1. congruence.
 Qed.
 
-Lemma attr_eqb_trans a b c : attr_eqb a b = true -> attr_eqb b c = true -> attr_eqb a c = true.
+Lemma attr_eqb_congr a a' b : key a = key a' -> attr_eqb a b = attr_eqb a' b.
 Proof.
-  unfold attr_eqb. intros H1 H2.
-  apply andb_true_iff in H1 as [H1 N1]. apply andb_true_iff in H1 as [T1 M1].
-  apply andb_true_iff in H2 as [H2 N2]. apply andb_true_iff in H2 as [T2 M2].
-  apply str_eqb_eq in T1, M1, T2, M2. apply ostr_eqb_eq in N1, N2.
-  rewrite T1, T2, M1, M2, N1, N2. rewrite !str_eqb_refl. cbn.
-  destruct (a_ns c); cbn; [apply str_eqb_refl|reflexivity].
+  intros E. destruct (attr_eqb a b) eqn:E1, (attr_eqb a' b) eqn:E2; try reflexivity.
+  - apply attr_eqb_key in E1. apply attr_eqb_false_key in E2. congruence.
+  - apply attr_eqb_key in E2. apply attr_eqb_false_key in E1. congruence.
+Qed.
+
+Lemma attr_eqb_congr_r a b b' : key b = key b' -> attr_eqb a b = attr_eqb a b'.
+Proof. intros E. rewrite (attr_eqb_sym a b), (attr_eqb_sym a b'). apply attr_eqb_congr. exact E. Qed.
+
+Definition keys (l : list attr) := map key l.
+
+Lemma key_eq_dec (x y : str * str * option str) : {x = y} + {x <> y}.
+Proof.
+  destruct x as [[t1 n1] s1], y as [[t2 n2] s2].
+  destruct (str_eqb_spec t1 t2); [|right; congruence].
+  destruct (str_eqb_spec n1 n2); [|right; congruence].
+  destruct s1 as [u1|], s2 as [u2|]; try (right; congruence).
+  - destruct (str_eqb_spec u1 u2); [left|right]; congruence.
+  - left; congruence.
+Qed.
+
+Lemma in_keys l a : In (key a) (keys l) <-> exists x, In x l /\ key x = key a.
+Proof. unfold keys. rewrite in_map_iff. split; intros [x [H1 H2]]; exists x; auto. Qed.
+
+Lemma NoDup_keys_inj l x y : NoDup (keys l) -> In x l -> In y l -> key x = key y -> x = y.
+Proof.
+  induction l as [|a l IH]; cbn; [contradiction|]. intros ND Hx Hy E. inversion ND as [|? ? Hn ND']; subst.
+  destruct Hx as [<-|Hx], Hy as [<-|Hy]; auto.
+  - exfalso. apply Hn. rewrite E. apply in_map. exact Hy.
+  - exfalso. apply Hn. rewrite <- E. apply in_map. exact Hx.
+Qed.
+
+(* ------------------------------------------------------------------ find_idx *)
+Lemma find_idx_Some l a i : find_idx l a = Some i -> exists x, nth_error l i = Some x /\ key x = key a.
+Proof.
+  revert i. induction l as [|y l IH]; cbn; [discriminate|]. intros i.
+  destruct (attr_eqb y a) eqn:E.
+  - intros [= <-]. exists y. split; [reflexivity|]. apply attr_eqb_key. exact E.
+  - destruct (find_idx l a) as [j|]; cbn; [|discriminate]. intros [= <-]. apply IH. reflexivity.
+Qed.
+
+Lemma find_idx_None l a : find_idx l a = None <-> ~ In (key a) (keys l).
+Proof.
+  induction l as [|y l IH]; cbn; [tauto|].
+  destruct (attr_eqb y a) eqn:E.
+  - split; [discriminate|]. intros H. exfalso. apply H. left. apply attr_eqb_key. exact E.
+  - apply attr_eqb_false_key in E. destruct (find_idx l a) as [j|]; cbn.
+    + split; [discriminate|]. intros H. exfalso. destruct IH as [_ IH].
+      assert (Some j = None) by (apply IH; intros Hin; apply H; right; exact Hin). discriminate.
+    + split; [|reflexivity]. intros _ [H|H]; [contradiction|]. destruct IH as [IH _]. apply IH; auto.
+Qed.
+
+Lemma find_idx_first l a i x : find_idx l a = Some i -> nth_error l i = Some x ->
+  forall j y, nth_error l j = Some y -> key y = key a -> (i <= j)%nat.
+Proof.
+  revert i. induction l as [|z l IH]; cbn; [discriminate|]. intros i.
+  destruct (attr_eqb z a) eqn:E.
+  - intros [= <-] _ j y _ _. lia.
+  - destruct (find_idx l a) as [k|] eqn:F; cbn; [|discriminate]. intros [= <-] Hn j y Hj Ey.
+    destruct j as [|j]; cbn in *.
+    + inversion Hj; subst. apply attr_eqb_false_key in E. contradiction.
+    + apply le_n_S. eapply IH; eauto.
+Qed.
+
+(* find with a boolean key test *)
+Lemma find_attr_some c k a : find_attr c k = Some a -> In a (c_attrs c) /\ key a = key k.
+Proof.
+  unfold find_attr. intros H. apply find_some in H as [H1 H2]. split; [exact H1|]. apply attr_eqb_key. exact H2.
+Qed.
+
+Lemma find_attr_in_nodup c k a : NoDup (keys (c_attrs c)) -> In a (c_attrs c) -> key a = key k -> find_attr c k = Some a.
+Proof.
+  unfold find_attr. intros ND Hin E.
+  destruct (find (fun a0 => attr_eqb a0 k) (c_attrs c)) as [b|] eqn:F.
+  - apply find_some in F as [Hb Eb]. apply attr_eqb_key in Eb. f_equal. eapply NoDup_keys_inj; eauto. congruence.
+  - exfalso. eapply find_none in F; eauto. apply attr_eqb_false_key in F. contradiction.
+Qed.
+
+Lemma find_attr_congr c k k' : key k = key k' -> find_attr c k = find_attr c k'.
+Proof.
+  intros E. unfold find_attr. induction (c_attrs c) as [|a l IH]; cbn; [reflexivity|].
+  rewrite (attr_eqb_congr_r a k k' E). destruct (attr_eqb a k'); [reflexivity|exact IH].
+Qed.
+
+(* ------------------------------------------------------------------ insert_at / remove_at *)
+Lemma insert_at_perm {A} pos (ins l : list A) : Permutation (insert_at pos ins l) (ins ++ l).
+Proof.
+  revert pos. induction l as [|x l IH]; intros [|p]; cbn; try reflexivity.
+  - rewrite app_nil_r. reflexivity.
+  - rewrite IH. apply Permutation_middle.
+Qed.
+
+Lemma remove_at_incl {A} pos (l : list A) x : In x (remove_at pos l) -> In x l.
+Proof.
+  revert pos. induction l as [|y l IH]; intros [|p]; cbn; auto.
+  intros [H|H]; auto. right. eapply IH. exact H.
+Qed.
+
+Lemma remove_at_keep {A} pos (l : list A) x y : nth_error l pos = Some x -> In y l -> y <> x -> In y (remove_at pos l).
+Proof.
+  revert pos. induction l as [|z l IH]; intros [|p]; cbn; try discriminate.
+  - intros [= ->] [H|H] Hne; [congruence|exact H].
+  - intros Hn [H|H] Hne; [left; exact H|right; eapply IH; eauto].
+Qed.
+
+Lemma remove_at_sublist_keys pos (l : list attr) : NoDup (keys l) -> NoDup (keys (remove_at pos l)).
+Proof.
+  revert pos. induction l as [|z l IH]; intros [|p]; cbn; auto; intros ND; inversion ND; subst; auto.
+  constructor; [|apply IH; assumption].
+  intros H. apply H1. unfold keys in *. apply in_map_iff in H as [x [E Hx]]. apply in_map_iff. exists x. split; [exact E|].
+  eapply remove_at_incl. exact Hx.
+Qed.
+
+Lemma NoDup_keys_perm l l' : Permutation l l' -> NoDup (keys l) -> NoDup (keys l').
+Proof. intros P. apply Permutation_NoDup. unfold keys. apply Permutation_map. exact P. Qed.
+
+Lemma NoDup_keys_app l1 l2 : NoDup (keys l1) -> NoDup (keys l2) -> (forall x, In x (keys l1) -> ~ In x (keys l2)) ->
+  NoDup (keys (l1 ++ l2)).
+Proof.
+  intros H1 H2 D. unfold keys in *. rewrite map_app. induction (map key l1) as [|k r IH]; cbn; [exact H2|].
+  inversion H1; subst. constructor.
+  - rewrite in_app_iff. intros [H|H]; [contradiction|]. eapply D; [left; reflexivity|exact H].
+  - apply IH; auto. intros x Hx. apply D. right. exact Hx.
+Qed.
+
+Lemma NoDup_keys_app_inv l1 l2 : NoDup (keys (l1 ++ l2)) ->
+  NoDup (keys l1) /\ NoDup (keys l2) /\ (forall x, In x (keys l1) -> ~ In x (keys l2)).
+Proof.
+  unfold keys. rewrite map_app. generalize (map key l1) (map key l2). clear. intros a b.
+  induction a as [|k r IH]; cbn; intros H.
+  - split; [constructor|]. split; [exact H|]. intros x [].
+  - inversion H; subst. destruct (IH H3) as [Ha [Hb D]]. split; [|split; [exact Hb|]].
+    + constructor; [|exact Ha]. intros Hin. apply H2. apply in_app_iff. left. exact Hin.
+    + intros x [<-|Hx]; [|apply D; exact Hx]. intros Hin. apply H2. apply in_app_iff. right. exact Hin.
 Qed.
